@@ -4,11 +4,12 @@ from __future__ import annotations
 import ast
 import itertools
 
-from .. import absint, inverse
+from .. import absint, inverse, shape
 from ..flow import call_name, dotted, norm
 from ..index import AnalysisError, walk_local
 from ..lib import (cfg_of, defs_of, edge_leads_only_to_raise, edge_successors, is_super_call, live,
-                   node_has, nodes_calling, nodes_with, undominated, witness)
+                   find, has, node_has, nodes_calling, nodes_with, undominated, witness)
+from .C05 import MAG, atom_is, calls_matching, edges_where, eq_zero_rule, facts, known, refused, stmt_of
 
 NR = "pint.facets.nonmultiplicative.registry"
 NO = "pint.facets.nonmultiplicative.objects"
@@ -72,31 +73,93 @@ def run(ck, ix, tier):
     ck.check(ff == want, "G-INV", "LogarithmicConverter.from_reference|logfactor*log(value/scale)/log(logbase)", lc.methods["from_reference"].loc(),
              "log value = logfactor * log(value/scale) / log(logbase)", f"from_reference computes [{inverse.show(ff)}], expected [{inverse.show(want)}]")
     f = oc.methods["is_multiplicative"]
-    ck.check("self.offset == 0" in norm(f.node), "G-PROV", "OffsetConverter.is_multiplicative|offset==0", f.loc(), "multiplicative iff offset == 0", "OffsetConverter.is_multiplicative is no longer `offset == 0`")
+    ck.check(_returns_only(f, "self.offset == 0", "0 == self.offset", "not self.offset"), "G-PROV", "OffsetConverter.is_multiplicative|offset==0", f.loc(), "multiplicative iff offset == 0", "OffsetConverter.is_multiplicative is no longer `offset == 0`")
     f = lc.methods["is_multiplicative"]
-    ck.check("return False" in norm(f.node), "G-PROV", "LogarithmicConverter.is_multiplicative|false", f.loc(), "log units are never multiplicative", "LogarithmicConverter.is_multiplicative no longer returns False")
+    ck.check(_returns_only(f, "False"), "G-PROV", "LogarithmicConverter.is_multiplicative|false", f.loc(), "log units are never multiplicative", "LogarithmicConverter.is_multiplicative no longer returns False")
 
     # ------------------------------------------------------------ (b) two-stage conversion
+    convert_rules(ck, ix)
+
+    validate_rules(ck, ix)
+
+    # ------------------------------------------------------------ (c) offset calculus decision table
+    offset_table(ck, ix)
+
+    # ------------------------------------------------------------ (d) predicates are called; muldiv guards
+    muldiv_rules(ck, ix)
+    # 0 degC differs from 0 kelvin: zero tests in __eq__ need multiplicative units (shared with C05)
+    eq_zero_rule(ck, ix)
+
+    # ------------------------------------------------------------ (e) delta twin
+    delta_twin_rules(ck, ix)
+    return EXPLANATION
+
+
+def _returns_only(f, *texts):
+    """every `return` of the function returns (after resolving temporaries) one of the given expressions"""
+    rets = shape.returns_of(f.node)
+    return bool(rets) and all(shape.rnorm(r.value, f.node) in texts for r in rets)
+
+
+def _raises_of(fn, exc):
+    return [r for r in walk_local(fn) if isinstance(r, ast.Raise) and r.exc is not None and exc in norm(r.exc) and not shape.dead(r, fn)]
+
+
+def convert_rules(ck, ix):
+    """Typestate of NonMultiplicativeRegistry._convert.  The two local names that hold the offset unit extracted from
+    the source and from the destination units are *discovered* (the targets of `self._validate_and_extract(src|dst)`);
+    every other condition is stated on these roles."""
     fi = ix.func(NR, "GenericNonMultiplicativeRegistry._convert")
     ck.analysed(fi)
-    cfg, defs = cfg_of(fi), defs_of(fi)
+    fn, cfg, defs = fi.node, cfg_of(fi), defs_of(fi)
+    # roles
+    ou = {}
+    for side in ("src", "dst"):
+        var = f"{side}_offset_unit"          # canonical role name, used in report keys only
+        cands = [a.targets[0].id for a in walk_local(fn) if isinstance(a, ast.Assign) and len(a.targets) == 1 and isinstance(a.targets[0], ast.Name)
+                 and shape.match(f"self._validate_and_extract({side})", shape.unalias(a.value, fn)) is not None]
+        okx = len(cands) == 1 and len(defs.defs.get(cands[0], [])) == 1
+        ck.check(okx, "G-PROV", f"nonmult_convert|{var}-extracted-from-{side}", fi.loc(),
+                 f"{var} = _validate_and_extract({side})", f"the offset unit of `{side}` is no longer (only) the result of self._validate_and_extract({side}) (found: {cands or '?'})")
+        if len(cands) == 1:
+            ou[side] = cands[0]
+    ck.floor("G-PROV", len(ou), 2, "names bound to self._validate_and_extract(src) / (dst) in _convert")
+
+    def side_of(e):
+        """which extracted offset unit the expression denotes ('src' / 'dst' / None)"""
+        e = shape.unalias(e, fn) if getattr(e, "_parent", None) is not None else e
+        for side, name in ou.items():
+            if (isinstance(e, ast.Name) and e.id == name) or shape.match(f"self._validate_and_extract({side})", e) is not None:
+                return side
+        return None
+
+    def present(side):
+        """atom predicate + truth alternatives for 'an offset unit was extracted on this side'"""
+        nm = ou[side]
+        return [(lambda a: isinstance(a, ast.Name) and a.id == nm, True), (atom_is(fn, f"{nm} is None", f"{nm} == None"), False)]
+
+    def is_present(node, side):
+        return any(known(node, fn, pred, truth) for pred, truth in present(side))
+
     sup = nodes_with(cfg, lambda x: is_super_call(x, "_convert"))
     tor = nodes_calling(cfg, "to_reference")
     frr = nodes_calling(cfg, "from_reference")
     ck.check(len(tor) == 1 and len(frr) == 1, "G-TYPESTATE", "nonmult_convert|one-to_reference-one-from_reference", fi.loc(),
              "one to_reference and one from_reference application", f"{len(tor)} to_reference and {len(frr)} from_reference applications found")
-    for kind, nodes, var, other in (("to_reference", tor, "src_offset_unit", "dst"), ("from_reference", frr, "dst_offset_unit", "src")):
+    for kind, nodes, side in (("to_reference", tor, "src"), ("from_reference", frr, "dst")):
+        var = f"{side}_offset_unit"
         for t in nodes:
             c = [c for c in ast.walk(cfg.nodes[t].ast) if isinstance(c, ast.Call) and call_name(c) == kind][0]
-            recv = norm(c.func.value)
-            ck.check(recv == f"self._units[{var}].converter", "G-PROV", f"nonmult_convert|{kind}-uses-{var}-converter", fi.loc(c),
-                     f"{kind} applied with the converter of {var}", f"`{norm(c)}` applies the converter `{recv}`, not that of `{var}`")
+            recv = shape.unalias(c.func.value, fn)
+            m = recv if isinstance(recv, ast.Attribute) and recv.attr == "converter" else None
+            unit = shape.unalias(m.value, fn) if m is not None else None
+            oku = isinstance(unit, ast.Subscript) and norm(unit.value) == "self._units" and side_of(unit.slice) == side
+            ck.check(oku, "G-PROV", f"nonmult_convert|{kind}-uses-{var}-converter", fi.loc(c),
+                     f"{kind} applied with the converter of {var}", f"`{norm(c)}` applies the converter `{shape.rnorm(c.func.value, fn)}`, not that of the offset unit extracted from `{side}`")
             ck.check(len(c.args) >= 1 and norm(c.args[0]) == "value", "G-PROV", f"nonmult_convert|{kind}-on-running-value", fi.loc(c), "applied to the running value", f"`{norm(c)}` is not applied to `value`")
             tgt = getattr(c, "_parent", None)
             ck.check(isinstance(tgt, ast.Assign) and norm(tgt.targets[0]) == "value", "G-ERR-d", f"nonmult_convert|{kind}-result-kept", fi.loc(c), "result assigned back to value", f"the result of `{norm(c)}` is discarded")
-            gates = [n.id for n in cfg.nodes if n.kind == "test" and norm(n.ast) == var]
-            bad = cfg.all_paths_pass(cfg.entry, [t], [], avoid_edges=[(g, "t") for g in gates])
-            ck.check(bool(gates) and bad is None, "G-DOM", f"nonmult_convert|{kind}-iff-{var}", fi.loc(c), f"only when {var} was extracted", f"{kind} can run although no {var} was extracted", witness(cfg, bad))
+            ck.check(is_present(c, side), "G-DOM", f"nonmult_convert|{kind}-iff-{var}", fi.loc(c), f"only when {var} was extracted", f"{kind} can run although no offset unit was extracted from `{side}`")
     for t in tor:
         p = None
         for s in [v for (v, lab) in cfg.succ[t] if lab != "exc"]:
@@ -111,63 +174,98 @@ def run(ck, ix, tier):
         for t in tor:
             p = cfg.path(s, [t])
             ck.check(p is None, "G-TYPESTATE", "nonmult_convert|no-to_reference-after-multiplicative-conversion", fi.loc(cfg.nodes[t].ast), "order to_reference < convert", "to_reference reachable after super()._convert")
-    # extraction and error translation
-    for var, arg in (("src_offset_unit", "src"), ("dst_offset_unit", "dst")):
-        v = [val for val, k, s in defs.defs.get(var, []) if val is not None]
-        ck.check(len(v) == 1 and norm(v[0]) == f"self._validate_and_extract({arg})", "G-PROV", f"nonmult_convert|{var}-extracted-from-{arg}", fi.loc(),
-                 f"{var} = _validate_and_extract({arg})", f"{var} is `{norm(v[0]) if v else '?'}`")
-    trys = [t for t in walk_local(fi.node) if isinstance(t, ast.Try) and any(isinstance(c, ast.Call) and call_name(c) == "_validate_and_extract" for s in t.body for c in ast.walk(s))]
+    # error translation
+    trys = [t for t in walk_local(fn) if isinstance(t, ast.Try) and any(isinstance(c, ast.Call) and call_name(c) == "_validate_and_extract" for s in t.body for c in ast.walk(s))]
     ck.check(len(trys) == 2, "G-ERR", "nonmult_convert|validation-in-try", fi.loc(), "both validations are guarded", f"{len(trys)} guarded validations found (expected 2)")
     for t in trys:
         ok = any(h.type is not None and norm(h.type) == "ValueError" and any(isinstance(r, ast.Raise) and "DimensionalityError" in norm(r) for r in ast.walk(h)) for h in t.handlers)
         ck.check(ok, "G-ERR", "nonmult_convert|validation-failure-becomes-DimensionalityError", fi.loc(t), "ValueError from validation re-raised as DimensionalityError",
                  "a failed offset-unit validation is no longer turned into DimensionalityError")
-    for var, cont in (("src_offset_unit", "src"), ("dst_offset_unit", "dst")):
-        rm = [c for c in walk_local(fi.node) if isinstance(c, ast.Call) and call_name(c) == "remove" and norm(c.func.value) == cont]
-        ck.check(len(rm) == 1 and norm(rm[0].args[0]) == f"[{var}]", "G-PROV", f"nonmult_convert|{cont}-offset-unit-removed", fi.loc(), f"{var} removed from {cont}",
-                 f"the offset unit is not removed from `{cont}` before the multiplicative conversion")
-        ad = [c for c in walk_local(fi.node) if isinstance(c, ast.Call) and call_name(c) == "_add_ref_of_log_or_offset_unit" and norm(c.args[0]) == var]
-        ck.check(len(ad) == 1 and norm(ad[0].args[1]) == cont, "G-PROV", f"nonmult_convert|{cont}-reference-unit-added", fi.loc(), f"reference unit of {var} added to {cont}",
-                 f"the reference unit of `{var}` is not added back to `{cont}`")
-    # delta guard: converting offset -> delta (or delta -> offset) is refused
-    from .. import shape as _sh6
-    dg = [t for t in walk_local(fi.node) if isinstance(t, ast.If) and "startswith('delta_')" in norm(_sh6.expand(ix, fi, t.test)).replace('"', "'")]  # sees through a private helper / module constant
-    ck.check(len(dg) == 2 and all(any(isinstance(r, ast.Raise) and "DimensionalityError" in norm(r) for r in ast.walk(t)) for t in dg), "G-DOM", "nonmult_convert|offset-delta-mixing-refused", fi.loc(),
-             "offset <-> delta conversion raises DimensionalityError", "the refusal of offset <-> delta conversions is gone")
-    for t in dg:
-        par = getattr(t, "_parent", None)
-        which = norm(par.test) if isinstance(par, ast.If) else "?"
-        it = "dst" if which == "src_offset_unit" else "src"
-        ck.check(f" in {it}" in norm(_sh6.expand(ix, fi, t.test)) or norm(t.test).endswith(f"({it})"), "G-DOM", f"nonmult_convert|delta-guard-looks-at-other-side|{which}", fi.loc(t), f"inside `if {which}` the other side ({it}) is searched for delta units",
-                 f"`{norm(t.test)}` inside `if {which}` does not inspect `{it}`")
+    # the extracted unit is replaced by its reference unit in the container it came from
+    for side in ("src", "dst"):
+        var = f"{side}_offset_unit"
+        rm = [c for c in walk_local(fn) if isinstance(c, ast.Call) and call_name(c) == "remove" and isinstance(c.func, ast.Attribute) and norm(c.func.value) == side and len(c.args) == 1]
+        okr = len(rm) == 1 and isinstance(shape.unalias(rm[0].args[0], fn), (ast.List, ast.Tuple)) and [side_of(e) for e in shape.unalias(rm[0].args[0], fn).elts] == [side]
+        ck.check(okr, "G-PROV", f"nonmult_convert|{side}-offset-unit-removed", fi.loc(), f"{var} removed from {side}",
+                 f"the offset unit is not removed from `{side}` before the multiplicative conversion")
+        ad = [c for c in walk_local(fn) if isinstance(c, ast.Call) and call_name(c) == "_add_ref_of_log_or_offset_unit" and len(c.args) == 2 and side_of(c.args[0]) == side]
+        ck.check(len(ad) == 1 and norm(ad[0].args[1]) == side, "G-PROV", f"nonmult_convert|{side}-reference-unit-added", fi.loc(), f"reference unit of {var} added to {side}",
+                 f"the reference unit of the offset unit of `{side}` is not added back to `{side}`")
+    # delta guard: converting offset -> delta (or delta -> offset) is refused: where an offset unit was extracted on one
+    # side and the OTHER side contains a delta_ unit, DimensionalityError is raised
+    def delta_in(cont):
+        pats = (f"any((_V.startswith('delta_') for _V in {cont}))", f"any([_V.startswith('delta_') for _V in {cont}])")
 
-    # _validate_and_extract
+        def pred(a):
+            forms = [a]
+            for mk in (lambda: shape.resolve(a, fn), lambda: shape.expand(ix, fi, a), lambda: shape.deep(ix, fi, a, fn)):    # sees through a private helper / module constant
+                try:
+                    forms.append(mk())
+                except RecursionError:
+                    pass
+            return any(shape.match(p_, f_) is not None for p_ in pats for f_ in forms)
+        return pred
+    raises = _raises_of(fn, "DimensionalityError")
+    for side, other in (("src", "dst"), ("dst", "src")):
+        var = f"{side}_offset_unit"
+        mine = [r for r in raises if is_present(r, side)]
+        good = [r for r in mine if known(r, fn, delta_in(other), True)]
+        ck.check(bool(good), "G-DOM", "nonmult_convert|offset-delta-mixing-refused", fi.loc(good[0]) if good else fi.loc(),
+                 "offset <-> delta conversion raises DimensionalityError", f"the refusal of offset <-> delta conversions is gone (offset unit in `{side}`, delta unit in `{other}`)")
+        wrong = [r for r in mine if known(r, fn, delta_in(side), True) and not known(r, fn, delta_in(other), True)]
+        ck.check(not wrong, "G-DOM", f"nonmult_convert|delta-guard-looks-at-other-side|{var}", fi.loc(wrong[0]) if wrong else fi.loc(), f"where {var} was extracted the other side ({other}) is searched for delta units",
+                 f"the delta guard for the offset unit of `{side}` inspects `{side}` itself instead of `{other}`")
+
+
+def validate_rules(ck, ix):
+    """_validate_and_extract refuses more than one offset unit, an offset unit in higher order and (without autoconvert)
+    an offset unit in a multiplicative context.  The collection of non-multiplicative (unit, exponent) pairs and the
+    exponent are found by role."""
     fi = ix.func(NR, "GenericNonMultiplicativeRegistry._validate_and_extract")
     ck.analysed(fi)
-    cfg = cfg_of(fi)
-    src = norm(fi.node)
+    fn, cfg = fi.node, cfg_of(fi)
     # the list of non-multiplicative (unit, exponent) pairs, whatever it is called: a comprehension over units.items()
     # filtered by `not self._is_multiplicative(<unit>)`
-    from .. import shape as _shv
-    sel = [a_ for a_ in walk_local(fi.node) if isinstance(a_, ast.Assign) and isinstance(a_.targets[0], ast.Name) and isinstance(a_.value, (ast.ListComp, ast.GeneratorExp))
-           and norm(a_.value.generators[0].iter) == "units.items()"]
-    oks = False
-    NM = "nonmult_units"
-    for a_ in sel:
+    NM = NM_text = None
+    for a_ in walk_local(fn):
+        if not (isinstance(a_, ast.Assign) and len(a_.targets) == 1 and isinstance(a_.targets[0], ast.Name) and isinstance(a_.value, (ast.ListComp, ast.GeneratorExp)) and len(a_.value.generators) == 1):
+            continue
         g_ = a_.value.generators[0]
-        uvar = norm(g_.target.elts[0]) if isinstance(g_.target, ast.Tuple) else "?"
-        facts_ = {(norm(p_), t_) for i_ in g_.ifs for p_, t_ in _shv.conjuncts(i_, "t")}
+        if norm(g_.iter) != "units.items()" or not isinstance(g_.target, ast.Tuple):
+            continue
+        uvar = norm(g_.target.elts[0])
+        facts_ = {(norm(p_), t_) for i_ in g_.ifs for p_, t_ in shape.conjuncts(i_, "t")}
         if (f"self._is_multiplicative({uvar})", False) in facts_:
-            oks, NM = True, a_.targets[0].id
-    ck.check(oks, "G-PROV", "_validate_and_extract|selects-non-multiplicative-units", fi.loc(), "non-multiplicative units selected by the registry predicate", "non-multiplicative units are no longer selected with `not self._is_multiplicative(unit)`")
-    forms = lambda a_: {norm(a_), _shv.rnorm(a_, fi.node, 1), _shv.rnorm(a_, fi.node, 2)}
-    many = lambda a_: isinstance(a_, ast.Compare) and f"len({NM}) > 1" in forms(a_)
-    e_many = _shv.guard_edges(cfg, many, want=True)
-    e_exp = _shv.guard_edges(cfg, lambda a_: isinstance(a_, ast.Compare) and isinstance(a_.ops[0], ast.Eq) and norm(a_.comparators[0]) == "1" and isinstance(a_.left, ast.Name)
-                             and not _shv.rnorm(a_.left, fi.node, 2).startswith("len("), want=False)
-    e_ctx = sorted(set(_shv.guard_edges(cfg, lambda a_: isinstance(a_, ast.Compare) and "len(units) > 1" in forms(a_), want=True)) &
-                   set(_shv.guard_edges(cfg, lambda a_: norm(a_) == "self.autoconvert_offset_to_baseunit", want=False)))
-    rules_ = (("more-than-one-offset-unit", e_many, f"len({NM}) > 1"), ("higher-order", e_exp, "exponent != 1"), ("multiplicative-context", e_ctx, "len(units) > 1 and not autoconvert"))
+            NM, NM_text = a_.targets[0].id, norm(a_.value)
+    ck.check(NM is not None, "G-PROV", "_validate_and_extract|selects-non-multiplicative-units", fi.loc(), "non-multiplicative units selected by the registry predicate", "non-multiplicative units are no longer selected with `not self._is_multiplicative(unit)`")
+    ck.floor("G-PROV", 1 if NM is not None else 0, 1, "collection of the non-multiplicative (unit, exponent) pairs in _validate_and_extract")
+    more = lambda x: (f"len({x}) > 1", f"len({x}) >= 2", f"1 < len({x})", f"2 <= len({x})")
+
+    def many(a_):
+        # `len(<the collection>) > 1`, the collection being named or written out, the length possibly hoisted
+        for d_ in (0, 1, 2, 6):
+            r_ = shape.resolve(a_, fn, d_) if d_ else a_
+            for p_ in more("_L"):
+                b_ = shape.match(p_, r_)
+                if b_ is not None and b_["_L"] in (NM, NM_text):
+                    return True
+        return False
+    several_units = atom_is(fn, *more("units"))
+    no_auto = atom_is(fn, "self.autoconvert_offset_to_baseunit")
+
+    def exp_is_one(a_):
+        # `<exponent> == 1` where <exponent> is a plain local (the exponent popped from the pair), not a length
+        if not (isinstance(a_, ast.Compare) and len(a_.ops) == 1 and isinstance(a_.ops[0], ast.Eq)):
+            return False
+        l_, r_ = a_.left, a_.comparators[0]
+        e_ = l_ if norm(r_) == "1" else (r_ if norm(l_) == "1" else None)
+        return isinstance(e_, ast.Name) and not shape.rnorm(e_, fn, 2).startswith("len(")
+    e_many = edges_where(cfg, fn, many, True)
+    e_exp = edges_where(cfg, fn, exp_is_one, False)
+    both = set(edges_where(cfg, fn, several_units, True))
+    e_ctx = sorted({(t, lab) for (t, lab) in edges_where(cfg, fn, no_auto, False) if (t, lab) in both or known(cfg.nodes[t].ast, fn, several_units, True)} |
+                   {(t, lab) for (t, lab) in both if known(cfg.nodes[t].ast, fn, no_auto, False)})
+    rules_ = (("more-than-one-offset-unit", e_many, "more than one non-multiplicative unit"), ("higher-order", e_exp, "exponent != 1"), ("multiplicative-context", e_ctx, "len(units) > 1 and not autoconvert"))
     for key, edges_, cond in rules_:
         if not edges_:
             ck.fail("G-DOM", f"_validate_and_extract|{key}-rejected", fi.loc(), f"the test `{cond}` is gone")
@@ -175,166 +273,181 @@ def run(ck, ix, tier):
             p = edge_leads_only_to_raise(cfg, t, lab)
             ck.check(p is None, "G-DOM", f"_validate_and_extract|{key}-rejected", fi.loc(cfg.nodes[t].ast), f"`{cond}` raises", f"`{cond}` no longer raises", witness(cfg, p))
 
-    # ------------------------------------------------------------ (c) offset calculus decision table
-    offset_table(ck, ix)
 
-    # ------------------------------------------------------------ (d) predicates are called; muldiv guards
-    muldiv_rules(ck, ix)
-    # 0 degC differs from 0 kelvin: zero tests in __eq__ need multiplicative units (shared with C05)
-    from .C05 import eq_zero_rule
-    eq_zero_rule(ck, ix)
-
-    # ------------------------------------------------------------ (e) delta twin
+def delta_twin_rules(ck, ix):
     fi = ix.func(NR, "GenericNonMultiplicativeRegistry._add_unit")
     ck.analysed(fi)
-    defs = defs_of(fi)
-    ud = [c for c in walk_local(fi.node) if isinstance(c, ast.Call) and call_name(c) == "UnitDefinition"]
+    fn, defs = fi.node, defs_of(fi)
+    ud = [c for c in walk_local(fn) if isinstance(c, ast.Call) and call_name(c) == "UnitDefinition"]
     ck.floor("G-PROV", len(ud), 1, "delta UnitDefinition construction")
     for c in ud:
         a = [norm(defs.inline(x)) for x in c.args]
         ck.check(a[0] == "'delta_' + definition.name", "G-PROV", "_add_unit|delta-name", fi.loc(c), "named delta_<name>", f"delta unit named `{a[0]}`")
         ck.check(a[3] == "ScaleConverter(definition.converter.scale)", "G-PROV", "_add_unit|delta-converts-by-scale-only", fi.loc(c), "delta unit converts by the scale of the offset unit, without offset",
                  f"delta unit converter is `{a[3]}` (must be ScaleConverter(definition.converter.scale): same scale, no offset)")
-        ck.check("definition.reference.items()" in a[4], "G-PROV", "_add_unit|delta-same-reference", fi.loc(c), "same reference units", f"delta unit reference is `{a[4]}`")
-    cfg = cfg_of(fi)
-    gate = [n.id for n in cfg.nodes if n.kind == "test" and norm(n.ast) == "definition.is_multiplicative"]
-    sup2 = [n for n in nodes_with(cfg, lambda x: is_super_call(x, "_add_unit")) if "delta_def" in norm(cfg.nodes[n].ast)]
-    for s in sup2:
-        p = cfg.all_paths_pass(cfg.entry, [s], [], avoid_edges=[(g, "f") for g in gate])
-        ck.check(bool(gate) and p is None, "G-DOM", "_add_unit|delta-only-for-non-multiplicative", fi.loc(cfg.nodes[s].ast), "delta twin only for non-multiplicative units", "a delta twin is registered for multiplicative units too", witness(cfg, p))
-    ck.check(bool(sup2), "G-PROV", "_add_unit|delta-twin-registered", fi.loc(), "delta twin registered", "the delta_ twin is no longer registered")
-    return EXPLANATION
+        ck.check("definition.reference.items()" in a[4] or a[4] in ("definition.reference", "self.UnitsContainer(definition.reference)"), "G-PROV", "_add_unit|delta-same-reference", fi.loc(c), "same reference units", f"delta unit reference is `{a[4]}`")
+    # the delta twin (a UnitDefinition built here) is registered, and only where the unit is known to be non-multiplicative
+    reg = [c for c in walk_local(fn) if is_super_call(c, "_add_unit") and len(c.args) == 1 and isinstance(shape.unalias(c.args[0], fn), ast.Call) and call_name(shape.unalias(c.args[0], fn)) == "UnitDefinition"]
+    ck.check(bool(reg), "G-PROV", "_add_unit|delta-twin-registered", fi.loc(), "delta twin registered", "the delta_ twin is no longer registered")
+    for c in reg:
+        ck.check(known(c, fn, atom_is(fn, "definition.is_multiplicative"), False), "G-DOM", "_add_unit|delta-only-for-non-multiplicative", fi.loc(c), "delta twin only for non-multiplicative units", "a delta twin is registered for multiplicative units too")
 
 
 # =====================================================================================
-VOCAB = [("operator.isub", "operator.sub"), ("operator.iadd", "operator.add"), ("_convert_magnitude_not_inplace", "_convert_magnitude")]
+# (c) The offset calculus of _add_sub / _iadd_sub as a decision table, read from the FACTS that hold where each magnitude
+# combination `op(L, R)` and each result-units assignment executes (sa.shape.facts_at): the spelling of the chain
+# (if/elif/else, nested ifs, flipped or split conditions, De Morgan, hoisted conditions, renamed locals) does not matter.
+#
+# Vocabulary of Appendix A: positive atom pattern -> (literal, polarity).  `_U` must denote the single
+# non-multiplicative unit of the named operand (role 'u' = self's, "u'" = other's).
+_ATOMS = [
+    ("len(self._get_non_multiplicative_units()) == 0", "SELF_MULT", True, None), ("len(other._get_non_multiplicative_units()) == 0", "OTHER_MULT", True, None),
+    ("self._get_non_multiplicative_units()", "SELF_MULT", False, None), ("other._get_non_multiplicative_units()", "OTHER_MULT", False, None),
+    ("self._is_multiplicative", "SELF_MULT", True, None), ("other._is_multiplicative", "OTHER_MULT", True, None),
+    ("op == operator.sub", "SUB", True, None), ("op == operator.isub", "SUB", True, None), ("op is operator.sub", "SUB", True, None), ("op is operator.isub", "SUB", True, None),
+    ("op in (operator.sub, operator.isub)", "SUB", True, None), ("op in (operator.isub, operator.sub)", "SUB", True, None),
+    ("len(self._get_non_multiplicative_units()) == 1", "SELF_ONE_OFFSET", True, None), ("len(other._get_non_multiplicative_units()) == 1", "OTHER_ONE_OFFSET", True, None),
+    ("self._units[_U] == 1", "SELF_OFFSET_EXP1", True, "u"), ("other._units[_U] == 1", "OTHER_OFFSET_EXP1", True, "u'"),
+    ("other._has_compatible_delta(_U)", "OTHER_HAS_DELTA(u)", True, "u"), ("self._has_compatible_delta(_U)", "SELF_HAS_DELTA(u')", True, "u'"),
+    ("self._units == other._units", "SAME_UNITS", True, None), ("other._units == self._units", "SAME_UNITS", True, None),
+    ("self._get_delta_units()", "SELF_DELTA", True, None), ("other._get_delta_units()", "OTHER_DELTA", True, None),
+]
+# literals that cannot hold together (len(x) == 0 / len(x) == 1)
+_EXCLUSIVE = [("SELF_MULT", "SELF_ONE_OFFSET"), ("OTHER_MULT", "OTHER_ONE_OFFSET")]
 
 
-def _v(s: str) -> str:
-    for a, b in VOCAB:
-        s = s.replace(a, b)
-    return s
+def _neg(lit: str) -> str:
+    return lit[4:] if lit.startswith("NOT ") else "NOT " + lit
 
 
-def _subst(e, local):
-    """Replace names bound in the same branch body (e.g. `tu`) by their value."""
-    if isinstance(e, ast.Name) and e.id in local:
-        return local[e.id]
-    if isinstance(e, ast.Name) and _PRED_FN[0] is not None and getattr(e, "_parent", None) is not None:
-        from .. import shape as _shs6
-        v = _shs6.dominating_def(e, _PRED_FN[0])
-        if isinstance(v, ast.Attribute) and norm(v) in ("self._units", "other._units", "self._magnitude", "other._magnitude"):
-            return v                       # a function-level alias such as `self_units = self._units`
-    return e
+class _Calculus:
+    """Reader of one of the two functions."""
+
+    def __init__(self, fi, inplace):
+        self.fi, self.fn, self.inplace = fi, fi.node, inplace
+        fn = self.fn
+        # roles: the names that hold the single non-multiplicative unit of self / of other
+        self.roles = {}
+        for a in walk_local(fn):
+            if isinstance(a, ast.Assign) and len(a.targets) == 1 and isinstance(a.targets[0], ast.Name):
+                r = self.unit_role(shape.resolve(a.value, fn))
+                if r:
+                    self.roles[a.targets[0].id] = r
+
+    def unit_role(self, e):
+        """'u' / "u'" if the (resolved) expression denotes the single non-multiplicative unit of self / other"""
+        if isinstance(e, ast.Name):
+            return self.roles.get(e.id)
+        for who, r in (("self", "u"), ("other", "u'")):
+            if any(shape.match(p, e) is not None for p in (f"{who}._get_non_multiplicative_units()[0]", f"next(iter({who}._get_non_multiplicative_units()))", f"{who}._get_non_multiplicative_units().pop()")):
+                return r
+        return None
+
+    # ---- conditions
+    def literal(self, atom):
+        """(literal text, known?) of an expression used as a condition"""
+        if isinstance(atom, ast.UnaryOp) and isinstance(atom.op, ast.Not):
+            l, k = self.literal(atom.operand)
+            return _neg(l), k
+        for a, holds in shape.atoms(atom):
+            pos = holds == "t"
+            try:
+                r = shape.resolve(a, self.fn)
+            except RecursionError:
+                r = a
+            for pat, name, polarity, role in _ATOMS:
+                for form in (a, r):
+                    b = shape.match(pat, form)
+                    if b is None:
+                        continue
+                    if role is not None:
+                        sub = [x for x in ast.walk(form) if norm(x) == b["_U"]]
+                        if not sub or self.unit_role(sub[0]) != role:
+                            continue
+                    return (name if polarity == pos else _neg(name)), True
+            return ("?" + norm(r) if pos else "NOT ?" + norm(r)), False
+        return "?" + norm(atom), False
+
+    def knowledge(self, node):
+        """(literals, clauses, unknown literals) known where `node` executes.  A clause is a frozenset of literals of
+        which at least one holds (the failed conjunction of an earlier branch)."""
+        lits, clauses, unknown = set(), [], set()
+        for a, truth in facts(node, self.fn):
+            if isinstance(a, ast.BoolOp):
+                members = []
+                for v in a.values:
+                    # a hoisted member (`both = x and y`): take its definition
+                    v2 = shape.unalias(v, self.fn) if isinstance(v, ast.Name) else v
+                    l, _k = self.literal(v2)
+                    members.append(l if truth else _neg(l))
+                # (a and b) false -> one of the negations holds; (a or b) true -> one of the members holds
+                if (isinstance(a.op, ast.And) and not truth) or (isinstance(a.op, ast.Or) and truth):
+                    clauses.append(frozenset(members))
+                continue
+            if isinstance(a, ast.Name) and shape.unalias(a, self.fn) is not a:
+                continue                      # a hoisted condition: its expansion is in the list as well
+            l, k = self.literal(a)
+            l = l if truth else _neg(l)
+            (lits if k else unknown).add(l)
+        return lits, clauses, unknown
+
+    # ---- values
+    def units(self, e):
+        e = shape.resolve(e, self.fn) if getattr(e, "_parent", None) is not None else e
+        s = norm(e)
+        if s in ("self._units", "self.units"):
+            return "U_s"
+        if s in ("other._units", "other.units"):
+            return "U_o"
+        if s == "self.UnitsContainer()":
+            return "DIMLESS"
+        b = shape.match("_B.rename(_A, 'delta_' + _A)", e)
+        if b is not None:
+            which = self.unit_role(e.args[0]) or b["_A"]
+            return f"delta({self.units(e.func.value)},{which})"
+        return "?" + s
+
+    def operand(self, e):
+        """(who, target units): who in {S, O, B}; target None = magnitude as is."""
+        e = shape.resolve(e, self.fn) if getattr(e, "_parent", None) is not None else e
+        s = norm(e)
+        if s in [f"self.{a}" for a in MAG]:
+            return ("S", None)
+        if s in [f"other.{a}" for a in MAG]:
+            return ("O", None)
+        if isinstance(e, ast.Attribute) and e.attr in MAG and isinstance(e.value, ast.Call) and call_name(e.value) == "to" and isinstance(e.value.func, ast.Attribute) and len(e.value.args) == 1:
+            who = {"other": "O", "self": "S"}.get(norm(e.value.func.value), "?")
+            return (who, self.units(e.value.args[0]))
+        if isinstance(e, ast.Call) and call_name(e) in ("_convert_magnitude", "_convert_magnitude_not_inplace") and isinstance(e.func, ast.Attribute) and norm(e.func.value) == "self" and len(e.args) == 1:
+            return ("S", self.units(e.args[0]))
+        if isinstance(e, ast.Call) and call_name(e) == "_to_magnitude":
+            return ("B", None)
+        return ("?", s)
 
 
-def _operand(e, local):
-    """Normalise an operand of op(...) to (who, target) — who in {S, O, B}, target None = as is."""
-    e = _subst(e, local)
-    s = norm(e)
-    if s == "self._magnitude":
-        return ("S", None)
-    if s in ("other._magnitude", "other.magnitude"):
-        return ("O", None)
-    if isinstance(e, ast.Attribute) and e.attr in ("_magnitude", "magnitude") and isinstance(e.value, ast.Call) and call_name(e.value) == "to":
-        who = {"other": "O", "self": "S"}.get(norm(e.value.func.value))
-        return (who, _units(e.value.args[0], local))
-    if isinstance(e, ast.Call) and call_name(e) in ("_convert_magnitude", "_convert_magnitude_not_inplace") and norm(e.func.value) == "self":
-        return ("S", _units(e.args[0], local))
-    if isinstance(e, ast.Call) and call_name(e) == "_to_magnitude":
-        return ("B", None)
-    if s == "other_magnitude":
-        return ("B", None)
-    return ("?", s)
-
-
-def _units(e, local):
-    e = _subst(e, local)
-    s = norm(e)
-    if s == "self._units":
-        return "U_s"
-    if s == "other._units":
-        return "U_o"
-    if s == "self.UnitsContainer()":
-        return "DIMLESS"
-    if isinstance(e, ast.Call) and call_name(e) == "rename" and len(e.args) == 2:
-        base = _units(e.func.value, local)
-        a0, a1 = norm(e.args[0]), norm(e.args[1])
-        if a1 == f"'delta_' + {a0}":
-            which = {"self_non_mul_unit": "u", "other_non_mul_unit": "u'"}.get(a0, a0)
-            return f"delta({base},{which})"
-    return "?" + s
-
-
-def _branch_summary(body, defs, inplace):
-    """(operands, result_units) of one branch: list of (left, right) operand pairs and units."""
-    ops, units = [], None
-    local = {}
-    for st in body:
-        for a in ast.walk(st):
-            if isinstance(a, ast.Assign) and isinstance(a.targets[0], ast.Name) and a.targets[0].id not in ("magnitude", "units"):
-                local[a.targets[0].id] = a.value
-    for st in body:
-        for a in ast.walk(st):
-            if isinstance(a, ast.Assign):
-                tgt = norm(a.targets[0])
-                if tgt in ("magnitude", "self._magnitude") and isinstance(a.value, ast.Call) and norm(a.value.func) == "op":
-                    ops.append((_operand(a.value.args[0], local), _operand(a.value.args[1], local)))
-                elif tgt in ("units", "self._units"):
-                    units = _units(a.value, local)
-    if units is None and inplace:
-        units = "U_s"
-    return sorted(set(ops), key=repr), units
-
-
-def _chain(ifnode):
-    """[(test_text, body)] + else body of an if/elif chain."""
-    out = []
-    cur = ifnode
-    while True:
-        out.append((cur.test, cur.body))
-        if len(cur.orelse) == 1 and isinstance(cur.orelse[0], ast.If):
-            cur = cur.orelse[0]
+def _flat_spec():
+    """SPEC rows in precedence order, the multiplicative row split into its documented sub-rows:
+    (report name, predicates, allowed operand pairs, result units, key of the condition check)."""
+    rows = []
+    for preds, spec in SPEC:
+        if spec == "nested":
+            for sp, (sops, sunits) in SPEC_MULT:
+                extra = () if sp == "else" else sp
+                rows.append((f"MULT:{sp if isinstance(sp, str) else ' & '.join(sp)}", tuple(preds) + tuple(extra), sops, sunits, "multiplicative-subconditions"))
         else:
-            return out, cur.orelse
+            rows.append((" & ".join(preds), tuple(preds), spec[0], spec[1], "branch-conditions==documented-rows"))
+    return rows
 
 
-_PRED_FN = [None]      # the function whose chain is being read (set by offset_table); tests are resolved in it
-
-
-def _pred(test):
-    """Map a branch test to the vocabulary of Appendix A.  Every conjunct is first resolved through the local
-    temporaries (`is_self_multiplicative`, `self_units = self._units`, ...) so that the spelling does not matter; the
-    name of the single offset unit is a wildcard."""
-    from .. import shape as _shp6
-    fn = _PRED_FN[0]
-    parts = list(test.values) if isinstance(test, ast.BoolOp) and isinstance(test.op, ast.And) else [test]
-    patterns = [
-        ("len(self._get_non_multiplicative_units()) == 0", "SELF_MULT"), ("len(other._get_non_multiplicative_units()) == 0", "OTHER_MULT"),
-        ("not self._get_non_multiplicative_units()", "SELF_MULT"), ("not other._get_non_multiplicative_units()", "OTHER_MULT"),
-        ("op == operator.sub", "SUB"), ("op == operator.isub", "SUB"),
-        ("len(self._get_non_multiplicative_units()) == 1", "SELF_ONE_OFFSET"), ("self._units[_U] == 1", "SELF_OFFSET_EXP1"),
-        ("len(other._get_non_multiplicative_units()) == 1", "OTHER_ONE_OFFSET"), ("other._units[_U] == 1", "OTHER_OFFSET_EXP1"),
-        ("other._has_compatible_delta(_U)", "OTHER_HAS_DELTA(u)"), ("not other._has_compatible_delta(_U)", "NOT OTHER_HAS_DELTA(u)"),
-        ("self._has_compatible_delta(_U)", "SELF_HAS_DELTA(u')"), ("not self._has_compatible_delta(_U)", "NOT SELF_HAS_DELTA(u')"),
-        ("self._units == other._units", "SAME_UNITS"), ("other._units == self._units", "SAME_UNITS"),
-        ("self._get_delta_units()", "SELF_DELTA"), ("not other._get_delta_units()", "NOT OTHER_DELTA"),
-    ]
-    names = []
-    for p in parts:
-        r = _shp6.resolve(p, fn) if fn is not None else p
-        hit = None
-        for pat, nm in patterns:
-            if _shp6.match(pat, r) is not None:
-                hit = nm
-                break
-        if hit is None and isinstance(r, ast.BoolOp) and isinstance(r.op, ast.And):
-            # a hoisted conjunction (`both_mult = a and b`): flatten
-            sub = _pred(p if not isinstance(p, ast.Name) else _shp6.unalias(p, fn))
-            names.extend(sub)
-            continue
-        names.append(hit or "?" + norm(p))
-    return tuple(names)
+def _excluded(preds, lits, clauses) -> bool:
+    """The row with these predicates cannot apply where `lits` / `clauses` are known."""
+    negs = {_neg(p) for p in preds}
+    if negs & lits:
+        return True
+    for a, b in _EXCLUSIVE:
+        if (a in preds and b in lits) or (b in preds and a in lits):
+            return True
+    return any(c and c <= negs for c in clauses)
 
 
 # Decision table (docs/user/nonmult.rst + comments in the source; DESIGN.md Appendix A).
@@ -354,76 +467,97 @@ SPEC_MULT = [
 
 
 def offset_table(ck, ix):
+    flat = _flat_spec()
+    same_dim = ("self.dimensionality == other.dimensionality", "other.dimensionality == self.dimensionality")
     tables = {}
     for q, inplace in (("PlainQuantity._add_sub", False), ("PlainQuantity._iadd_sub", True)):
         fi = ix.func(PQ, q)
         ck.analysed(fi)
-        defs = defs_of(fi)
-        _PRED_FN[0] = fi.node
-        from .. import shape as _sho
-        top = [s for s in fi.node.body if isinstance(s, ast.If) and "_get_non_multiplicative_units()) == 0" in _sho.rnorm(s.test, fi.node)]
-        if len(top) != 1:
-            raise AnalysisError(f"{q}: offset decision chain not found")
-        chain, els = _chain(top[0])
-        rows = []
-        for test, body in chain:
-            pred = _pred(test)
-            if pred == ("SELF_MULT", "OTHER_MULT"):
-                inner = [s for s in body if isinstance(s, ast.If)]
-                sub, sub_else = _chain(inner[0]) if inner else ([], [])
-                subrows = [(_pred(t), _branch_summary(b, defs, inplace)) for t, b in sub] + [("else", _branch_summary(sub_else, defs, inplace))]
-                rows.append((pred, ("nested", subrows)))
-            else:
-                rows.append((pred, _branch_summary(body, defs, inplace)))
-        raises = any(isinstance(r, ast.Raise) and "OffsetUnitCalculusError" in norm(r) for s in els for r in ast.walk(s))
-        tables[q] = (rows, raises, fi, top[0])
-        ck.check(raises and len(els) == 1, "G-EXH", f"{q}|every-other-combination-raises", fi.loc(els[0]) if els else fi.loc(top[0]),
-                 "the chain ends in `else: raise OffsetUnitCalculusError`", "a combination outside the documented rows no longer raises OffsetUnitCalculusError (it would fall through to a numeric result)")
-        # compare with the spec
-        ck.check([r[0] for r in rows] == [s[0] for s in SPEC], "G-TABLE", f"{q}|branch-conditions==documented-rows", fi.loc(top[0]),
-                 "branch conditions match the documented decision table",
-                 f"branch conditions {[' & '.join(r[0]) for r in rows]} differ from the documented rows {[' & '.join(s[0]) for s in SPEC]}")
-        for (pred, summ), (spred, sspec) in zip(rows, SPEC):
-            if pred != spred:
+        fn, cfg = fi.node, cfg_of(fi)
+        cal = _Calculus(fi, inplace)
+        is_same_dim = atom_is(fn, *same_dim)
+        # candidates: magnitude combinations op(L, R), assignments of the result units, raises of OffsetUnitCalculusError
+        if inplace:
+            unit_targets = {"self._units"}
+        else:
+            ctors = [b for r in shape.returns_of(fn) for b in [shape.match("self.__class__(_M, _U)", shape.unalias(r.value, fn)) or shape.match("type(self)(_M, _U)", shape.unalias(r.value, fn))] if b is not None]
+            unit_targets = {b["_U"] for b in ctors if b["_U"].isidentifier()}
+            ck.floor("G-TABLE", len(unit_targets), 1, f"name of the result units passed to self.__class__(magnitude, units) in {q}")
+        apps = [c for c in walk_local(fn) if isinstance(c, ast.Call) and isinstance(c.func, ast.Name) and c.func.id == "op" and len(c.args) == 2 and not shape.dead(c, fn)]
+        uasg = [a for a in walk_local(fn) if isinstance(a, ast.Assign) and len(a.targets) == 1 and norm(a.targets[0]) in unit_targets and not shape.dead(a, fn)]
+        know = {id(n): cal.knowledge(n) for n in apps + uasg}
+        in_calculus = lambda n: bool(know[id(n)][0]) or bool(know[id(n)][1])
+        apps_c, uasg_c = [c for c in apps if in_calculus(c)], [a for a in uasg if in_calculus(a)]
+        ck.floor("G-TABLE", len(apps_c), len(flat), f"magnitude combinations op(L, R) under offset-calculus conditions in {q}")
+        top = min(apps_c, key=lambda c: c.lineno)
+        # conditions that hold for the whole calculus (same registry, same dimensionality ...) are not part of a row
+        ambient = set.intersection(*[know[id(c)][2] for c in apps_c])
+
+        def row_of(n):
+            lits = know[id(n)][0]
+            hits = [r for r in flat if set(r[1]) <= lits]
+            return max(hits, key=lambda r: len(r[1])) if hits else None
+        by_row = {r[0]: ([], []) for r in flat}
+        cond_ok = {"branch-conditions==documented-rows": [], "multiplicative-subconditions": []}
+        for c in apps_c:
+            lits, clauses, unknown = know[id(c)]
+            r = row_of(c)
+            if r is None:
+                cond_ok["branch-conditions==documented-rows"].append((c, f"`{norm(stmt_of(c)).splitlines()[0]}` combines the magnitudes under the conditions [{' & '.join(sorted(lits))}], which is not a documented row"))
                 continue
-            name = " & ".join(pred)
-            if sspec == "nested":
-                subrows = summ[1]
-                ck.check([r[0] for r in subrows] == [s[0] for s in SPEC_MULT], "G-TABLE", f"{q}|multiplicative-subconditions", fi.loc(top[0]),
-                         "sub-conditions for multiplicative operands match", f"sub-conditions {[r[0] for r in subrows]} differ from {[s[0] for s in SPEC_MULT]}")
-                for (sp, ssum), (xp, xspec) in zip(subrows, SPEC_MULT):
-                    if sp == xp:
-                        _cmp_row(ck, q, fi, top[0], f"MULT:{sp if isinstance(sp, str) else ' & '.join(sp)}", ssum, xspec)
-            else:
-                _cmp_row(ck, q, fi, top[0], name, summ, sspec)
+            by_row[r[0]][0].append(c)
+            extra = sorted(unknown - ambient)
+            if extra:
+                cond_ok[r[4]].append((c, f"row [{r[0]}] additionally depends on {extra}"))
+            # precedence: every documented row that comes earlier must be known not to apply here
+            for e in flat[:flat.index(r)]:
+                if not _excluded(e[1], lits, clauses):
+                    cond_ok[r[4] if e[4] == r[4] else "branch-conditions==documented-rows"].append((c, f"row [{r[0]}] is evaluated although the earlier documented row [{e[0]}] may apply (precedence of the rows changed or a condition was weakened)"))
+        for a in uasg_c:
+            r = row_of(a)
+            if r is not None:
+                by_row[r[0]][1].append(a)
+        for r in flat:
+            if not by_row[r[0]][0]:
+                cond_ok[r[4]].append((top, f"no magnitude combination is performed under the documented row [{r[0]}] (conditions {' & '.join(r[1])})"))
+        for key, problems in cond_ok.items():
+            what = "branch conditions match the documented decision table" if key.startswith("branch") else "sub-conditions for multiplicative operands match"
+            ck.check(not problems, "G-TABLE", f"{q}|{key}", fi.loc(problems[0][0]) if problems else fi.loc(top), what, "; ".join(p_[1] for p_ in problems[:3]))
+        # a units assignment that holds for the whole calculus (before the chain) is the default of every row
+        default_units = [a for a in uasg if not in_calculus(a) and known(a, fn, is_same_dim, True)]
+        summary = {}
+        for name, preds, sops, sunits, _k in flat:
+            cs, us = by_row[name]
+            if not cs:
+                continue
+            ops = sorted({(cal.operand(c.args[0]), cal.operand(c.args[1])) for c in cs}, key=repr)
+            raw_ok = all((cal.operand(c.args[0]), cal.operand(c.args[1])) != (("S", None), ("O", None)) or "SAME_UNITS" in know[id(c)][0] for c in cs)
+            uvals = sorted({cal.units(a.value) for a in (us or default_units)})
+            units = uvals[0] if len(uvals) == 1 else ("U_s" if inplace and not uvals else (None if not uvals else "/".join(uvals)))
+            summary[name] = (ops, units)
+            ck.check(bool(ops) and all(o in sops for o in ops) and raw_ok, "G-TABLE", f"{q}|row[{name}]|operands", fi.loc(cs[0]),
+                     f"operands combined as {ops}", f"row [{name}]: magnitudes are combined as {ops}{'' if raw_ok else ' (unconverted although the units are not known to be the same)'}, documented: {sops} (wrong operand converted / wrong target units)")
+            ck.check(units == sunits, "G-TABLE", f"{q}|row[{name}]|result-units", fi.loc(us[0] if us else cs[0]),
+                     f"result in {units}", f"row [{name}]: result units {units}, documented: {sunits}")
+        tables[q] = (summary, fi, top)
+        # every other combination raises: no path reaches the final result without one of the magnitude combinations,
+        # and OffsetUnitCalculusError is raised where no documented row applies
+        gates = [i for c in apps_c for i in cfg.nodes_for_ast(stmt_of(c))]
+        after = cfg.reach(gates)
+        finals = [n.id for n in cfg.nodes if n.kind == "stmt" and isinstance(n.ast, ast.Return) and n.id in after and n.id not in gates]      # the return(s) of the result the combinations flow into
+        ck.floor("G-EXH", len(finals), 1, f"return of the result after the offset calculus in {q}")
+        p = undominated(cfg, finals, gates)
+        rs = [r for r in _raises_of(fn, "OffsetUnitCalculusError") for (lits, clauses, _u) in [cal.knowledge(r)] if all(_excluded(e[1], lits, clauses) for e in flat)]
+        ck.check(p is None and bool(rs), "G-EXH", f"{q}|every-other-combination-raises", fi.loc(rs[0]) if rs else fi.loc(cfg.nodes[finals[0]].ast),
+                 "where no documented row applies OffsetUnitCalculusError is raised", "a combination outside the documented rows no longer raises OffsetUnitCalculusError (it would fall through to a numeric result)", witness(cfg, p))
+        # the dimensionality gate (shared with C03)
+        ck.check(all(known(c, fn, is_same_dim, True) for c in apps_c), "G-DOM", f"{q}|dimensionality-test-dominates-calculus", fi.loc(), "operands of different dimensionality are rejected first",
+                 "the offset calculus is reachable without the dimensionality test")
+        refused(ck, fi, cfg, is_same_dim, False, "G-DOM", f"{q}|dimension-mismatch-raises", "mismatch raises DimensionalityError", "a dimension mismatch does not raise", "the dimensionality of the operands is no longer compared")
     # twin agreement (same rows, same summaries)
     a, b = tables["PlainQuantity._add_sub"], tables["PlainQuantity._iadd_sub"]
-    ck.check(a[0] == b[0], "G-TWIN", "_add_sub/_iadd_sub|same-decision-table", b[2].loc(b[3]), "functional and in-place forms implement the same table",
+    ck.check(a[0] == b[0], "G-TWIN", "_add_sub/_iadd_sub|same-decision-table", b[1].loc(b[2]), "functional and in-place forms implement the same table",
              "the in-place form and the functional form differ in a branch (condition, converted operand, target or result units)")
-    # the dimensionality gate and the bare-number branch (shared with C03)
-    for q in ("PlainQuantity._add_sub", "PlainQuantity._iadd_sub"):
-        fi = ix.func(PQ, q)
-        cfg = cfg_of(fi)
-        gate = [n.id for n in cfg.nodes if n.kind == "test" and "self.dimensionality" in norm(n.ast) and "other.dimensionality" in norm(n.ast)]
-        from .. import shape as _sho
-        chain_top = [n.id for n in cfg.nodes if n.kind == "test" and "_get_non_multiplicative_units()) == 0" in _sho.rnorm(n.ast, fi.node)]
-        p = undominated(cfg, chain_top, gate)
-        ck.check(bool(gate) and p is None, "G-DOM", f"{q}|dimensionality-test-dominates-calculus", fi.loc(), "operands of different dimensionality are rejected first",
-                 "the offset calculus is reachable without the dimensionality test", witness(cfg, p))
-        for g in gate:
-            lab = "t" if isinstance(cfg.nodes[g].ast, ast.UnaryOp) or "!=" in norm(cfg.nodes[g].ast) else "f"
-            p = edge_leads_only_to_raise(cfg, g, lab)
-            ck.check(p is None, "G-DOM", f"{q}|dimension-mismatch-raises", fi.loc(cfg.nodes[g].ast), "mismatch raises DimensionalityError", "a dimension mismatch does not raise", witness(cfg, p))
-
-
-def _cmp_row(ck, q, fi, node, name, summ, spec):
-    ops, units = summ
-    sops, sunits = spec
-    ok_ops = bool(ops) and all(o in sops for o in ops)
-    ck.check(ok_ops, "G-TABLE", f"{q}|row[{name}]|operands", fi.loc(node),
-             f"operands combined as {ops}", f"row [{name}]: magnitudes are combined as {ops}, documented: {sops} (wrong operand converted / wrong target units)")
-    ck.check(units == sunits, "G-TABLE", f"{q}|row[{name}]|result-units", fi.loc(node),
-             f"result in {units}", f"row [{name}]: result units {units}, documented: {sunits}")
 
 
 def muldiv_rules(ck, ix):
@@ -469,71 +603,92 @@ def muldiv_rules(ck, ix):
              f"_ok_for_muldiv disagrees with the documented rule ({SPEC_OK_FOR_MULDIV}) in {len(bad)} of {cases} abstract cases, e.g. {bad[:2]}")
     # is_multiplicative property of the facet quantity
     f = ix.func(NO, "NonMultiplicativeQuantity._is_multiplicative")
-    ck.check("not self._get_non_multiplicative_units()" in norm(f.node), "G-PROV", "NonMultiplicativeQuantity._is_multiplicative", f.loc(), "multiplicative iff no non-multiplicative unit", "_is_multiplicative no longer tests for the absence of non-multiplicative units")
+    ck.check(_returns_only(f, "not self._get_non_multiplicative_units()", "len(self._get_non_multiplicative_units()) == 0"), "G-PROV", "NonMultiplicativeQuantity._is_multiplicative", f.loc(),
+             "multiplicative iff no non-multiplicative unit", "_is_multiplicative no longer tests for the absence of non-multiplicative units")
+    # _get_non_multiplicative_units: the units of self._units (whatever the loop variable is called) whose definition is known not to be multiplicative
     f = ix.func(NO, "NonMultiplicativeQuantity._get_non_multiplicative_units")
-    ck.check("if not self._get_unit_definition(unit).is_multiplicative" in norm(f.node), "G-PROV", "NonMultiplicativeQuantity._get_non_multiplicative_units", f.loc(), "selects units whose definition is not multiplicative", "_get_non_multiplicative_units no longer selects by `not is_multiplicative`")
+    sel = False
+    for comp in [c for c in walk_local(f.node) if isinstance(c, (ast.ListComp, ast.GeneratorExp, ast.SetComp)) and len(c.generators) == 1]:
+        g = comp.generators[0]
+        v = norm(g.target)
+        if norm(g.iter) in ("self._units", "self._units.keys()", "self._units.items()") and norm(comp.elt) == v.split(",")[0].strip("( )"):
+            u = v.split(",")[0].strip("( )")
+            known_ = {(norm(a), t) for i in g.ifs for a, t in shape.conjuncts(i, "t")}
+            sel = sel or (f"self._get_unit_definition({u}).is_multiplicative", False) in known_
+    for loop in [l for l in walk_local(f.node) if isinstance(l, ast.For) and norm(l.iter) in ("self._units", "self._units.keys()")]:
+        u = norm(loop.target)
+        for c in [c for c in ast.walk(loop) if isinstance(c, ast.Call) and call_name(c) == "append" and len(c.args) == 1 and norm(c.args[0]) == u]:
+            sel = sel or known(c, f.node, lambda a: norm(a) == f"self._get_unit_definition({u}).is_multiplicative", False)
+    ck.check(sel, "G-PROV", "NonMultiplicativeQuantity._get_non_multiplicative_units", f.loc(), "selects units whose definition is not multiplicative", "_get_non_multiplicative_units no longer selects by `not is_multiplicative`")
+    # _has_compatible_delta: the exact delta twin, or a delta unit with the same reference as the offset unit
     f = ix.func(NO, "NonMultiplicativeQuantity._has_compatible_delta")
-    src = norm(f.node)
-    ck.check("'delta_' + unit in deltas" in src and ".reference == offset_unit_dim" in src, "G-PROV", "NonMultiplicativeQuantity._has_compatible_delta", f.loc(), "exact delta twin or a delta with the same reference", "_has_compatible_delta no longer looks for the delta twin / same-reference delta")
+    DU = "self._get_delta_units()"
+    twin = [r for r in shape.returns_of(f.node) if shape.rnorm(r.value, f.node) == "True" and known(r, f.node, atom_is(f.node, f"'delta_' + unit in {DU}"), True)] \
+        or [h for pat in (f"'delta_' + unit in {DU}",) for h in find(ix, f, pat, inline=False) if isinstance(stmt_of(h[0]), ast.Return)]
+    REF = lambda x: f"self._get_unit_definition({x}).reference"
+    same_ref = [h for gen in ("({e} for _D in {it})", "[{e} for _D in {it}]") for e in (f"{REF('_D')} == {REF('unit')}", f"{REF('unit')} == {REF('_D')}")
+                for h in find(ix, f, "any(" + gen.format(e=e, it=DU) + ")", inline=False)]
+    ck.check(bool(twin) and bool(same_ref), "G-PROV", "NonMultiplicativeQuantity._has_compatible_delta", f.loc(), "exact delta twin or a delta with the same reference", "_has_compatible_delta no longer looks for the delta twin / same-reference delta")
 
     # guards in the multiplicative operators
     for q, who in (("PlainQuantity._mul_div", ("self", "other")), ("PlainQuantity._imul_div", ("self", "other")), ("PlainQuantity.__rtruediv__", ("self",))):
         fi = ix.func(PQ, q)
         ck.analysed(fi)
-        cfg = cfg_of(fi)
+        fn, cfg = fi.node, cfg_of(fi)
         for w in who:
-            tests = [n.id for n in cfg.nodes if n.kind == "test" and norm(n.ast).startswith(f"not {w}._ok_for_muldiv(")]
-            ck.check(bool(tests), "G-DOM", f"{q}|{w}-ok_for_muldiv-tested", fi.loc(), f"{w} is tested with _ok_for_muldiv", f"`{w}._ok_for_muldiv(...)` is no longer tested in {q}")
-            for t in tests:
-                p = edge_leads_only_to_raise(cfg, t, "t")
-                ck.check(p is None, "G-DOM", f"{q}|{w}-not-ok-raises", fi.loc(cfg.nodes[t].ast), "not ok => OffsetUnitCalculusError", "an operand that is not ok for mul/div does not raise", witness(cfg, p))
-                c = [c for c in ast.walk(cfg.nodes[t].ast) if isinstance(c, ast.Call) and call_name(c) == "_ok_for_muldiv"][0]
-                if c.args:
-                    arg = defs_of(fi).inline(c.args[0])
-                    ok = "_get_non_multiplicative_units()" in norm(arg) and norm(arg).startswith("len(") and (w + ".") in norm(arg)
-                    ck.check(ok, "G-PROV", f"{q}|{w}-offset-count-argument", fi.loc(c), f"count of {w}'s non-multiplicative units passed", f"`{norm(c)}` receives `{norm(arg)}`, not the number of {w}'s non-multiplicative units")
+            is_ok = atom_is(fn, f"{w}._ok_for_muldiv(*_R)")
+            refused(ck, fi, cfg, is_ok, False, "G-DOM", f"{q}|{w}-not-ok-raises", "not ok => OffsetUnitCalculusError", "an operand that is not ok for mul/div does not raise", f"`{w}._ok_for_muldiv(...)` is no longer tested in {q}")
+            ck.check(bool(edges_where(cfg, fn, is_ok, False)), "G-DOM", f"{q}|{w}-ok_for_muldiv-tested", fi.loc(), f"{w} is tested with _ok_for_muldiv", f"`{w}._ok_for_muldiv(...)` is no longer tested in {q}")
+            for c in calls_matching(fn, f"{w}._ok_for_muldiv(_N)"):
+                arg = shape.rnorm(c.args[0], fn)
+                ck.check(arg == f"len({w}._get_non_multiplicative_units())", "G-PROV", f"{q}|{w}-offset-count-argument", fi.loc(c), f"count of {w}'s non-multiplicative units passed", f"`{norm(c)}` receives `{arg}`, not the number of {w}'s non-multiplicative units")
             # single offset unit goes through root units
-            conv = [x for x in walk_local(fi.node) if isinstance(x, ast.Call) and call_name(x) in ("to_root_units", "ito_root_units", "to_base_units", "ito_base_units") and norm(x.func.value) == w]
+            conv = [x for x in walk_local(fn) if isinstance(x, ast.Call) and call_name(x) in ("to_root_units", "ito_root_units", "to_base_units", "ito_base_units") and norm(x.func.value) == w]
             ck.check(bool(conv), "G-DOM", f"{q}|{w}-single-offset-unit-via-root-units", fi.loc(), f"a lone offset unit of {w} is converted to root units first", f"{w} with a single offset unit is no longer converted to root units before the operation")
-        # the quantity/number branch uses the magnitudes and units of the (possibly converted) same objects
-    # operations on the *result* of the conversion: _mul_div uses new_self
-    fi = ix.func(PQ, "PlainQuantity._mul_div")
-    src = norm(fi.node)
-    ck.check("magnitude_op(new_self._magnitude, other._magnitude)" in src and "units_op(new_self._units, other._units)" in src, "G-TAG", "_mul_div|magnitude-and-units-from-same-objects", fi.loc(),
-             "magnitude and units are taken from the same (converted) objects", "magnitude and units in _mul_div are no longer taken from the same (converted) objects")
-    fi = ix.func(PQ, "PlainQuantity._imul_div")
-    src = norm(fi.node)
-    ck.check("magnitude_op(self._magnitude, other._magnitude)" in src and "units_op(self._units, other._units)" in src, "G-TAG", "_imul_div|magnitude-and-units-from-same-objects", fi.loc(),
-             "magnitude and units are taken from the same objects", "magnitude and units in _imul_div are no longer taken from the same objects")
+    # the quantity/quantity branch combines the magnitudes and the units of the same two objects: `other` and either self
+    # or the object that stands for self after the conversion to root units (whatever it is called)
+    for q, short in (("PlainQuantity._mul_div", "_mul_div"), ("PlainQuantity._imul_div", "_imul_div")):
+        fi = ix.func(PQ, q)
+        defs = defs_of(fi)
+        mags = {(b["_X"], b["_O"]) for a in MAG for a2 in MAG for (_n, b, _f) in find(ix, fi, f"magnitude_op(_X.{a}, _O.{a2})")}
+        unts = {(b["_X"], b["_O"]) for (_n, b, _f) in find(ix, fi, "units_op(_X._units, _O._units)")}
+
+        def stands_for_self(x):
+            if x == "self":
+                return True
+            ds = defs.defs.get(x, [])
+            return x.isidentifier() and bool(ds) and all(v is not None and norm(v) in ("self", "self.to_root_units()", "self.to_base_units()") for v, _k, _s in ds)
+        okm = bool(mags) and mags == unts and all(stands_for_self(x) and o == "other" for x, o in mags) and (short == "_mul_div" or all(x == "self" for x, _o in mags))
+        ck.check(okm, "G-TAG", f"{short}|magnitude-and-units-from-same-objects", fi.loc(),
+                 "magnitude and units are taken from the same (converted) objects", f"magnitude and units in {short} are no longer taken from the same (converted) objects (magnitudes of {sorted(mags)}, units of {sorted(unts)})")
     fi = ix.func(PQ, "PlainQuantity.__rtruediv__")
     # the result is built from (number / magnitude of X, 1 / units of X) for one and the same X (self, possibly converted to root units)
     ctor = [c_ for c_ in walk_local(fi.node) if isinstance(c_, ast.Call) and norm(c_.func) in ("self.__class__", "type(self)") and len(c_.args) == 2]
-    okr = len(ctor) == 1 and isinstance(ctor[0].args[0], ast.BinOp) and isinstance(ctor[0].args[0].op, ast.Div) and isinstance(ctor[0].args[1], ast.BinOp) and isinstance(ctor[0].args[1].op, ast.Div)
+    okr = len(ctor) == 1
     if okr:
-        m_, u_ = ctor[0].args
-        okr = norm(m_.right).endswith("._magnitude") and norm(u_.right).endswith("._units") and norm(m_.right)[:-len("._magnitude")] == norm(u_.right)[:-len("._units")] and norm(u_.left) == "1" and "other" in " ".join(defs_of(fi).roots(m_.left))
+        m_, u_ = [shape.unalias(a_, fi.node) for a_ in ctor[0].args]
+        okr = isinstance(m_, ast.BinOp) and isinstance(m_.op, ast.Div) and isinstance(u_, ast.BinOp) and isinstance(u_.op, ast.Div)
+        okr = okr and norm(m_.right).endswith("._magnitude") and norm(u_.right).endswith("._units") and norm(m_.right)[:-len("._magnitude")] == norm(u_.right)[:-len("._units")] and norm(u_.left) == "1" and "other" in " ".join(defs_of(fi).roots(m_.left))
     ck.check(okr, "G-TAG", "__rtruediv__|number-over-quantity", fi.loc(),
              "other / self with reciprocal units", "__rtruediv__ no longer computes other / self with reciprocal units")
 
     # powers: non-multiplicative => autoconvert to root/base units or raise
-    for q, conv in (("PlainQuantity.__pow__", "to_root_units"), ("PlainQuantity.__ipow__", "ito_base_units")):
+    CONV = ("to_root_units", "ito_root_units", "to_base_units", "ito_base_units")
+    for q in ("PlainQuantity.__pow__", "PlainQuantity.__ipow__"):
         fi = ix.func(PQ, q)
         ck.analysed(fi)
-        cfg = cfg_of(fi)
-        tests = [n.id for n in cfg.nodes if n.kind == "test" and norm(n.ast) == "not self._is_multiplicative"]
-        ck.check(bool(tests), "G-DOM", f"{q}|multiplicativity-tested", fi.loc(), "non-multiplicative bases are detected", f"{q} no longer tests `not self._is_multiplicative`")
-        for t in tests:
-            auto = [n.id for n in cfg.nodes if n.kind == "test" and norm(n.ast) == "self._REGISTRY.autoconvert_offset_to_baseunit"]
-            ok_auto = bool(auto) and all(a in cfg.reach(edge_successors(cfg, t, "t")) for a in auto)
-            ck.check(ok_auto, "G-DOM", f"{q}|offset-base-needs-autoconvert", fi.loc(cfg.nodes[t].ast), "autoconvert decides", "the autoconvert test is gone")
-            for a in auto:
-                p = edge_leads_only_to_raise(cfg, a, "f")
-                ck.check(p is None, "G-DOM", f"{q}|offset-base-without-autoconvert-raises", fi.loc(cfg.nodes[a].ast), "without autoconvert an offset base raises", "an offset base is raised to a power without autoconvert", witness(cfg, p))
-                convs = [x for x in cfg.reach(edge_successors(cfg, a, "t"), labels={"n"}) if node_has(cfg.nodes[x], lambda c: isinstance(c, ast.Call) and call_name(c) in ("to_root_units", "ito_root_units", "to_base_units", "ito_base_units"))]
-                first = edge_successors(cfg, a, "t")
-                ck.check(bool(first) and all(f_ in convs for f_ in first), "G-DOM", f"{q}|offset-base-converted-before-power", fi.loc(cfg.nodes[a].ast), "with autoconvert the base is converted to root/base units first",
-                         "with autoconvert the offset base is not converted to root/base units before the power")
+        fn, cfg = fi.node, cfg_of(fi)
+        is_mult = atom_is(fn, "self._is_multiplicative")
+        is_auto = atom_is(fn, "self._REGISTRY.autoconvert_offset_to_baseunit")
+        ck.check(bool(edges_where(cfg, fn, is_mult, False)), "G-DOM", f"{q}|multiplicativity-tested", fi.loc(), "non-multiplicative bases are detected", f"{q} no longer tests `not self._is_multiplicative`")
+        # where the base is known to be non-multiplicative: without autoconvert only a raise, with autoconvert a conversion to root/base units
+        rs = [r for r in _raises_of(fn, "OffsetUnitCalculusError") if known(r, fn, is_mult, False)]
+        ck.check(bool(rs) and all(known(r, fn, is_auto, False) for r in rs), "G-DOM", f"{q}|offset-base-needs-autoconvert", fi.loc(rs[0]) if rs else fi.loc(), "autoconvert decides", "the autoconvert test is gone")
+        refused(ck, fi, cfg, is_auto, False, "G-DOM", f"{q}|offset-base-without-autoconvert-raises", "without autoconvert an offset base raises", "an offset base is raised to a power without autoconvert", "the autoconvert test is gone")
+        convs = [c for c in walk_local(fn) if isinstance(c, ast.Call) and call_name(c) in CONV and isinstance(c.func, ast.Attribute) and norm(c.func.value) == "self" and known(c, fn, is_mult, False) and known(c, fn, is_auto, True)]
+        ck.check(bool(convs), "G-DOM", f"{q}|offset-base-converted-before-power", fi.loc(convs[0]) if convs else fi.loc(), "with autoconvert the base is converted to root/base units first",
+                 "with autoconvert the offset base is not converted to root/base units before the power")
         # the power itself is dominated by that test unless exponent is 0/1
-        pw = nodes_with(cfg, lambda x: (isinstance(x, ast.BinOp) and isinstance(x.op, ast.Pow) and "_magnitude" in norm(x.left) and "exponent" in norm(x.right)) or
+        pw = nodes_with(cfg, lambda x: (isinstance(x, ast.BinOp) and isinstance(x.op, ast.Pow) and "_magnitude" in norm(x.left)) or
                         (isinstance(x, ast.AugAssign) and isinstance(x.op, ast.Pow) and "_magnitude" in norm(x.target)))
         ck.floor("G-DOM", len(pw), 1, f"magnitude power in {q}")
